@@ -219,7 +219,7 @@ pub fn render_alias(into: &[String], from: &[String], f: &Fmt, blank_lines: bool
     let section = |s: &mut String, header: &str, lines: &[String], r: &mut Rng| {
         s.push_str(header);
         s.push_str(nl);
-        for (i, l) in lines.iter().enumerate() {
+        for l in lines.iter() {
             if r.chance(1, 6) {
                 s.push_str(f.indent);
                 s.push_str("# note");
@@ -327,6 +327,10 @@ pub fn gen_groups(d: &Data, r: &mut Rng, max_groups: usize, allow_wild: bool) ->
 }
 
 pub fn gen_words(d: &Data, r: &mut Rng) -> Vec<String> {
+    if r.chance(1, 20) {
+        // a rule-only project: no words at all
+        return Vec::new();
+    }
     let n = r.range(1, 8);
     let mut v: Vec<String> = Vec::new();
     // blank lines are words too ("each word is declared on a new line"): at the start, in the
@@ -521,6 +525,33 @@ pub fn gen_scn(d: &Data, r: &mut Rng, faulty: bool) -> Scn {
     let has_o = dirs.contains(&"o".to_string());
     let mut out_counter = 0usize;
     let directed = r.chance(1, 3);
+    // in the fault-injecting batch: convert twice into the same explicit targets, declining
+    // some overwrites the second time, with a fault while the others are being written
+    let twice = faulty && !p_json.is_empty() && r.chance(1, 8);
+    if twice {
+        let jp = p_json[0].clone();
+        let mk = |answers: Vec<String>, class: FaultClass, r: &mut Rng| Inv {
+            cmd: Cmd::ConvJson { path: Some(jp.clone()), words: Some("twice.wsca".into()), rules: Some("twice.rsca".into()), alias: Some("twice.alias".into()) },
+            cwd: String::new(),
+            answers,
+            detrand: r.next_u64() | 1,
+            dirseed: r.next_u64() | 1,
+            class,
+            plan: vec![],
+            fault_seed: r.next_u64(),
+            recover: r.chance(1, 2),
+        };
+        let second_answers: Vec<String> = match r.below(4) {
+            0 => vec!["n".into(), "y".into(), "y".into()],
+            1 => vec!["".into(), "y".into(), "y".into()],
+            2 => vec!["n".into(), "n".into(), "y".into()],
+            _ => vec!["y".into(), "n".into(), "y".into()],
+        };
+        let class = if r.chance(3, 4) { FaultClass::Hard } else { FaultClass::Crash };
+        let first = mk(vec![], FaultClass::None, r);
+        let second = mk(second_answers, class, r);
+        return Scn { files, meaning, dirs, invs: vec![first, second] };
+    }
     let n_inv = if directed { 4 } else { r.range(1, 6) };
     let mut invs = Vec::new();
     for step in 0..n_inv {
